@@ -332,7 +332,7 @@ def sccs(nodes, succ):
     return out
 
 
-def reachable_assuming(fn, call_value=None, start=0, max_states=20000, place_value=None, avoid=(), fixed=None):
+def reachable_assuming(fn, call_value=None, start=0, max_states=20000, place_value=None, avoid=(), fixed=None, avoid_edges=()):
     """Path-sensitive reachability with boolean constant propagation (P9b).
 
     `place_value(place)` gives the assumed value of a projected place read (e.g. a config field);
@@ -355,6 +355,7 @@ def reachable_assuming(fn, call_value=None, start=0, max_states=20000, place_val
             return place_value(op[1])
         return None
     avoid = set(avoid)
+    avoid_edges = set(avoid_edges)
     seen = set()
     reach = set()
     work = [(start, ())]
@@ -411,5 +412,7 @@ def reachable_assuming(fn, call_value=None, start=0, max_states=20000, place_val
                 nxt = [(tb, None) for sv, tb in t[2] if sv != 0] + [(t[3], None)]
         e2 = tuple(sorted(env.items(), key=lambda kv: kv[0]))
         for s, _ in nxt:
+            if (b, s) in avoid_edges:
+                continue
             work.append((s, e2))
     return reach
